@@ -10,14 +10,14 @@ TEXT = {
  "C03": ("Theorem: the model's forward mode is the derivative (HasDerivAt) of the denotation along the coordinate; tie: Partial/Derivative.at against the model.", "4/C03"),
  "C04": ("Theorem: the model's reverse mode accumulates multiplier x true partial for every variable at once; tie: LocatedDifferential / Differential.at on DAG inputs against the model.", "4/C04"),
  "C05": ("Theorems: symbolic forward/reverse derivatives evaluate to the numeric ones, mention no new variable, stay well formed (K1-free statement _partial); tie: as_expression() trees against the model, semantic oracle on the implementation's output incl. second order.", "4/C05"),
- "C06": ("Theorems: all model routes return the same value or all fail (K1-free), Partial early = late as_expression; witnesses for K1/K2; tie: every route against the model, pairwise oracle on the implementation.", "4/C06"),
+ "C06": ("Theorems (about the very route functions the driver executes, Model/Routes.lean): the numeric routes return the true partial with no side condition, all thirteen routes agree on the domain (K1-free hypotheses for the simplifying ones) and all raise DomainError off it; early = late as_expression for Partial/Derivative; K1 and K2 as proved witnesses; tie: every route against the model incl. warm-up calls on the route's own object and sharing siblings, pairwise oracle on the implementation.", "4/C06"),
  "C07": ("Theorems: every model route is .ok iff evaluation is .ok; tie and oracle: DomainError iff Expression.at raises, on all routes with undefined sub-trees planted where rules could skip them.", "4/C07"),
- "C08": ("Theorems: every rule, constant folding, the step driver for every fuel incl. the fallback, and the normal-form pass preserve value and definedness (K1-free _partial + witness); tie: step-level traces (event, size) and normal forms against the model; semantic oracle on outputs.", "4/C08"),
- "C09": ("Theorems: heap entry points return the pure function of the tree from any memo contents; flag-independence of reduction; tie: histories vs fresh copies, heap model fed with the memos actually found.", "4/C09"),
+ "C08": ("Theorems: every rule, constant folding, the step driver for every fuel incl. the fallback, and the normal-form pass preserve value and definedness (K1-free _partial + witness; unconditional for inputs without even roots, C08odd); tie: ordered reducer tables, step-level traces (event, size) and normal forms against the model; semantic oracle on outputs.", "4/C08"),
+ "C09": ("Theorems: heap entry points return the pure function of the tree from any memo contents; flag-independence of reduction within the step budget; persistent Partial/Derivative/Differential objects answer like fresh ones after any call sequence (C09obj, K1-free); tie: histories (incl. persistent derivative objects, domain-border sequences, repeated points) vs fresh copies, heap model fed with the memos actually found.", "4/C09"),
  "C10": ("Frame theorem of the model (operations touch only memo fields); decisive part is the snapshot oracle along histories.", "4/C10"),
  "C11": ("Theorem: a well-founded measure strictly decreases at every model step (no cycles, termination in a rule-free form); quadratic bound and 20-node budget measured, not proved; tie: step traces against the model.", "4/C11"),
- "C12": ("Theorems: model equality is structural equality with numeric parameters, an equivalence, and respected by the hash key; tie: ==/!=/hash/set/dict on pairs, triples, mutants, foreign objects, points, derivative objects.", "4/C12"),
- "C13": ("Theorem: parse (render e) = e (printing is injective up to equality); tie: tokenised repr against the model's rendering; oracle eval(repr(x)) == x.", "4/C13"),
+ "C12": ("Theorems: model equality is structural equality with numeric parameters, an equivalence, and respected by the hash key, for expressions, points and the four derivative classes (C12obj); tie: ==/!=/hash/set/dict on pairs, triples, mutants, foreign objects, points, derivative objects.", "4/C12"),
+ "C13": ("Theorems: parse (render e) = e (printing is injective up to equality); both printed forms of a point are injective and cannot be confused (C13point); tie: tokenised repr of expressions, points and derivative objects against the model's rendering; oracle eval(repr(x)) == x.", "4/C13"),
  "C14": ("Theorems: no missing-coordinate outcome when all occurring variables are supplied, never a value when one is missing, bare-number/Derivative acceptance iff <= 1 variable; tie: outcome kinds per supplied subset; names through keyword arguments exercised.", "4/C14"),
  "C15": ("Theorems: model operators are the constructors; ** accepts exactly expressions and integral k >= 1; tie: operators vs constructors vs model on pairs, exponent and foreign-operand grids.", "4/C15"),
  "C16": ("Theorems: checked constructors accept exactly the documented range, results are well formed, transformations preserve well-formedness; tie: argument grids against the model.", "4/C16"),
@@ -50,7 +50,7 @@ m = {
               "kind_free_text": "Lean 4 model (Mathlib-free, native driver) with theorems over Mathlib reals; Python differential harness"}],
  "checks": checks,
  "not_applicable": [],
- "notes": "fix: commits in /repo: 61f8c70 (C13), ce531ca (C07/C06), 5661d0a (C14/C17); recorded findings K1-K4 in KNOWN_FINDINGS.json",
+ "notes": "fix: commits in /repo: 61f8c70 (C13), ce531ca (C07/C06), 5661d0a (C14/C17), 82372c9 (C13); recorded findings K1-K4 in KNOWN_FINDINGS.json",
 }
 json.dump(m, open('/verif/MANIFEST.json', 'w'), indent=1)
 print("manifest written:", {l: sum(1 for c in checks if c['level_claimed']['category'] == l) for l in set(LEVEL.values())})
